@@ -352,3 +352,27 @@ func VerifCFSlots(c *VerifCombiningFrame) (idx []int, data frame.Frame) {
 	}
 	return idx, c.data
 }
+
+// ---- C14 (end to end): the cluster manager's accounting of the machines that hold the tasks of the given results,
+// as (maxTaskProcs, taskProcs) per machine.  The fields are owned by the manager goroutine: call at quiescence.
+func VerifMachineProcs(sess *Session, rs []*Result) [][2]int {
+	b, ok := sess.executor.(*bigmachineExecutor)
+	if !ok {
+		return nil
+	}
+	seen := map[*sliceMachine]bool{}
+	var out [][2]int
+	for _, r := range rs {
+		if r == nil {
+			continue
+		}
+		_ = iterTasks(r.tasks, func(task *Task) error {
+			if m := b.location(task); m != nil && !seen[m] {
+				seen[m] = true
+				out = append(out, [2]int{m.maxTaskProcs, m.taskProcs})
+			}
+			return nil
+		})
+	}
+	return out
+}
